@@ -15,6 +15,9 @@ func init() {
 		jsonSinkRule("C08.escape", "OpenAPI JSON (hand-written marshalers of openapi/internal)", func(pkgRel, fn string) bool {
 			return strings.HasPrefix(pkgRel, "openapi")
 		}, 10),
+		jsonSinkRule("C08.example", "an example (exampleBuilder): an example that is not JSON is not an instance of any schema", func(pkgRel, fn string) bool {
+			return pkgRel == "notations/jschema" && strings.Contains(fn, "exampleBuilder")
+		}, 4),
 		c08jsonValue, sepRule("C08.sep", []string{"openapi"}, 4))
 }
 
